@@ -48,6 +48,12 @@ class KOps (α : Type) where
   pi : α
   /-- `std::f32::consts::SQRT_2` (as an f32 value) -/
   sqrt2_32 : α
+  /-- `f32::sin` on a value that is already `f32` (C15: glam `sin_cos`) -/
+  sin32 : α → α
+  /-- `f32::cos` on a value that is already `f32` (C15: glam `sin_cos`) -/
+  cos32 : α → α
+  /-- `f32::is_finite` / `f64::is_finite` (always true over ℝ) -/
+  isFinite : α → Bool
 
 namespace K
 
